@@ -220,6 +220,22 @@ def check_convert(case):
         return f
     if not _means(o[1][1], v):
         return failure(case["sub"], case, v["text"], o[1][1], tags=tags, behaviour="to:units-not-target")
+    # the target given as an object instead of a string: Quantity(1, v) and BaseUnits(v) name the same unit
+    if case.get("objtargets"):
+        from scinumtools.units import BaseUnits
+        for form in ("quantity1", "baseunits"):
+            o = outcome(lambda: Quantity(_scalar_or_array(x), u["text"]).to(
+                Quantity(1, v["text"]) if form == "quantity1" else BaseUnits(v["text"])))
+            if o[0] == "err":
+                return failure(case["sub"], case, [e[0] for e in exp], dict(error=o[1], message=o[2]), tags=tags,
+                               behaviour="to-" + form + ":raises:" + o[1])
+            o = outcome(lambda: o[1].value())
+            if o[0] == "err":
+                return failure(case["sub"], case, "readable quantity", dict(error=o[1], message=o[2]), tags=tags,
+                               behaviour="to-" + form + ":unreadable:" + o[1])
+            f = cmp(o[1], "to-" + form)
+            if f:
+                return f
     # and back
     if any(e[1] for e in exp) or (rec and any(xi == 0 for xi in xs)):
         return None
@@ -295,8 +311,12 @@ def check_refuse(case):
     if before[0] == "err":
         return failure("refuse", case, "readable quantity", dict(error=before[1], message=before[2]), tags=tags,
                        behaviour="unreadable-before")
-    for how in ("value", "to"):
-        o = outcome(lambda: q.value(v["text"]) if how == "value" else q.to(v["text"]))
+    from scinumtools.units import BaseUnits
+    targets = dict(value=lambda: q.value(v["text"]), to=lambda: q.to(v["text"]),
+                   to_quantity1=lambda: q.to(Quantity(1, v["text"])), to_quantity4=lambda: q.to(Quantity(4, v["text"])),
+                   to_baseunits=lambda: q.to(BaseUnits(v["text"])))
+    for how in ("value", "to", "to_quantity1", "to_quantity4", "to_baseunits"):
+        o = outcome(targets[how])
         if o[0] == "ok":
             got = o[1] if how == "value" else o[1].value()
             return failure("refuse", case, "refused with an error",
@@ -529,8 +549,10 @@ def _guard(sh):
 def _conv_cases(sh, sub, u, v, xs, arr, reciprocal=False, tags=(), nontrivial=True):
     """run one (u, v) combination for all magnitudes; counts one distinct case"""
     bad = None
-    for x in list(xs) + [list(arr)]:
+    for i, x in enumerate(list(xs) + [list(arr)]):
         c = dict(sub=sub, u=u, v=v, x=x, reciprocal=reciprocal, tags=list(tags))
+        if x == 2.5:
+            c["objtargets"] = True         # one magnitude per (u, v): also targets given as Quantity / BaseUnits objects
         r = check_convert(c)
         sh.evaluations += 1
         if r is not None and bad is None:
